@@ -41,7 +41,7 @@ fn lexeme(d: &Delims) -> BoxedStrategy<String> {
     ]
     .boxed()
 }
-fn soup(d: Delims) -> BoxedStrategy<String> {
+pub fn soup(d: Delims) -> BoxedStrategy<String> {
     // most inputs open a tag or an expression so that they get past the lexer into the parser
     (prop::collection::vec(lexeme(&d), 0..40), any::<u8>()).prop_map(move |(v, mode)| {
         let body = v.join(if mode % 3 == 0 { "" } else { " " });
@@ -154,7 +154,7 @@ fn tokens(s: &str) -> Vec<&str> {
     }
     out
 }
-fn mutate(src: &str, other: &str, ops: &[(u8, u16, u16)]) -> String {
+pub fn mutate(src: &str, other: &str, ops: &[(u8, u16, u16)]) -> String {
     let mut toks: Vec<String> = tokens(src).into_iter().map(|s| s.to_string()).collect();
     let o: Vec<&str> = tokens(other);
     for (op, a, b) in ops {
